@@ -189,6 +189,11 @@ partial def pStmt : P Stmt
   | "TH" :: ts => do let (e, ts) ← pExpr ts; pure (.thr e, ts)
   | "BK" :: ts => do let (l, ts) ← pLabel ts; pure (.brk l, ts)
   | "CN" :: ts => do let (l, ts) ← pLabel ts; pure (.cont l, ts)
+  | "BL" :: ts => do
+    let (x, ts) ← pNat ts
+    let (v, ts) ← pVal ts
+    let (b, ts) ← pBlock ts
+    pure (.blk x v b, ts)
   | _ => none
 
 partial def pBlock : P (List Stmt) := fun ts => do
